@@ -96,7 +96,8 @@ fn check(text: &[u8], rep: &mut Reporter, case_idx: u64, slow: bool) {
         match (&got, &exp) {
             (Err(Ok(g)), Err(e)) => {
                 rep.count(&format!("prefix_rejected_{}", kind_name(e)), 1);
-                if g != e {
+                let acceptable = acceptable_errors(prefix, 1).unwrap_or_default();
+                if !acceptable.iter().any(|a| same_kind(g, a)) {
                     let mut d = Json::obj();
                     d.set("file_len", Json::i(bytes.len() as u64));
                     d.set("prefix_len", Json::i(n as u64));
@@ -186,7 +187,8 @@ fn check(text: &[u8], rep: &mut Reporter, case_idx: u64, slow: bool) {
         match (&got, &exp) {
             (Err(Ok(g)), Err(x)) => {
                 rep.count(&format!("edit_rejected_{}", kind_name(x)), 1);
-                if g != x {
+                let acceptable = acceptable_errors(e.as_slice(), 1).unwrap_or_default();
+                if !acceptable.iter().any(|a| same_kind(g, a)) {
                     let mut d = Json::obj();
                     d.set("field", Json::s(name));
                     d.set("value", Json::i(v as u64));
